@@ -350,6 +350,15 @@ def mutant(src, dst, inf, muts):
         shutil.rmtree(dst)
     shutil.copytree(src, dst)
     inf["root"] = src
+    # byte edits of one binary file are applied from the end of the file backwards, so that the
+    # positions computed from the original layout stay valid for the remaining edits
+    BYTE_OPS = ("insert", "remove", "fabhdr", "fabhdr_text", "bitflip")
+
+    def pos(mu):
+        if mu["op"] in BYTE_OPS:
+            return -inf["levels"][mu["lv"]]["boxes"][mu["box"]]["off"]
+        return 1
+    muts = sorted(muts, key=pos)
     for mu in muts:
         try:
             if apply(dst, inf, mu) == "n/a":
